@@ -41,6 +41,7 @@ def range_(a, b):
 
 class AccWorld(lf.LinWorldMixin, OracleWorld):
     max_steps = 50000
+    ctor_table = {CPS + "::Single": (CPS, 0), CPS + "::Range": (CPS, 1)}
 
     def __init__(self, prog, writers=()):
         OracleWorld.__init__(self, prog)
@@ -48,6 +49,9 @@ class AccWorld(lf.LinWorldMixin, OracleWorld):
 
     def call(self, m, st, callee, args, term):
         p = callee["path"]
+        if p in self.ctor_table:
+            c = self.ctor_table[p]
+            return Adt(c[0], c[1], tuple(args))
         if p == CP + "::value":
             v = deref_all(m, st, args[0])
             if isinstance(v, Adt) and v.ty == CP:
@@ -88,9 +92,35 @@ class AccWorld(lf.LinWorldMixin, OracleWorld):
         if callee["name"] in ("iter", "into_iter") and args:
             v = deref_all(m, st, args[0])
             if isinstance(v, Opq) and v.kind == "vec":
-                if any(e[0] == "emit" and e[1] == v.data for e in st.events):
-                    raise AnalysisError("iteration over a vector the function itself filled with entries")
+                if v.data == ("acc",) or any(e[0] == "emit" and e[1] == v.data for e in st.events):
+                    return Opq("vec-iter", (v.data, ()))  # the accumulated rows, re-read to build the output
                 return Opq("stream", (v.data,))
+            if isinstance(v, Opq) and v.kind == "vec-iter":
+                return v
+        if callee["name"] in ("copied", "cloned", "by_ref") and args:
+            v = deref_all(m, st, args[0])
+            if isinstance(v, Opq) and v.kind == "vec-iter":
+                return v
+        if callee["name"] == "chain" and len(args) == 2:
+            v = deref_all(m, st, args[0])
+            if isinstance(v, Opq) and v.kind == "vec-iter":
+                extra = deref_all(m, st, args[1])
+                if isinstance(extra, Sym):
+                    extra = m.concretize(st, extra)
+                if isinstance(extra, Adt) and extra.ty == ip.OPTION:
+                    more = () if extra.variant == 0 else (extra.fields[0],)
+                    return Opq("vec-iter", (v.data[0], v.data[1] + more))
+                raise AnalysisError("rows chained with %r" % (extra,))
+        if callee["name"] in ("collect", "from_iter") and args:
+            v = deref_all(m, st, args[0])
+            if isinstance(v, Opq) and v.kind == "vec-iter":
+                n = st.ext.get("n_vec", 0) + 1
+                st.ext["n_vec"] = n
+                new = Opq("vec", ("v", n))
+                st.emit(("clone", ("v", n), v.data[0]))
+                for item in v.data[1]:
+                    self.vec_push(m, st, Ref(("val", new)), item)
+                return new
             if isinstance(v, Opq) and v.kind == "stream":
                 return v
         if callee["name"] == "next" and args:
@@ -125,6 +155,8 @@ class AccWorld(lf.LinWorldMixin, OracleWorld):
             return None
         if callee.get("virtual") or not callee["resolved"]:
             return None
+        if p in self.prog.bodies and m.ext_simple(p):
+            return None  # a std combinator exported as plain MIR (bool::then, Option::map_or, ...): interpret it
         dl = term["dest"]
         return ty_.fresh(self.prog, st.frames[-1].body.locals[dl["l"]]["ty"] if not dl["p"] else "?", ("ext", callee["name"], st.fresh()))
 
